@@ -557,6 +557,7 @@ type vNode struct {
 	st     dag.State
 	store  stoabs.KVStore
 	fstore *vFaultStore
+	ticker map[string]bool // gossip queue objects (of the current manager) whose ticker goroutine is alive
 	conns  map[int]*vConn
 	list   *vConnList
 	added  map[hash.SHA256Hash]bool
@@ -582,6 +583,7 @@ func (s *vSim) newNode(id int, cfg vNodeCfg, dir string) *vNode {
 // (loads the clock and the XOR/IBLT trees from disk), protocol New + Configure
 func (s *vSim) open(n *vNode) {
 	id, cfg, dir := n.id, n.cfg, n.dir
+	n.ticker = nil // a new process: new gossip manager, no ticker goroutines yet
 	path := filepath.Join(dir, fmt.Sprintf("node%d.db", id))
 	inner, err := bbolt.CreateBBoltStore(path, stoabs.WithNoSync())
 	if err != nil {
@@ -647,7 +649,7 @@ func (s *vSim) restart(n *vNode) string {
 	for _, cc := range s.sc.Conns {
 		if cc.At == n.id {
 			if c := n.conns[cc.Peer]; c != nil && c.connected {
-				n.p.connectionStateCallback(c.peer, transport.StateConnected, n.p)
+				s.peerEvent(n, c.peer, transport.StateConnected)
 			}
 		}
 	}
@@ -1328,6 +1330,34 @@ func (s *vSim) reportHang(op *vOp) {
 	os.Exit(0)
 }
 
+// peerEvent runs the protocol's connection state callback (-> real gossip manager PeerConnected / PeerDisconnected) and keeps
+// track of which queue objects have a LIVE ticker goroutine: PeerConnected starts one exactly when it creates a queue object,
+// PeerDisconnected stops the one of the object it finds under the peer's key - whether or not it then removes the object
+func (s *vSim) peerEvent(n *vNode, peer transport.Peer, state transport.StreamState) {
+	before := gossip.VerifEntry(n.p.gManager, peer)
+	n.p.connectionStateCallback(peer, state, n.p)
+	after := gossip.VerifEntry(n.p.gManager, peer)
+	if n.ticker == nil {
+		n.ticker = map[string]bool{}
+	}
+	switch state {
+	case transport.StateConnected:
+		if after != "" && after != before {
+			n.ticker[after] = true
+		}
+	case transport.StateDisconnected:
+		if before != "" {
+			delete(n.ticker, before)
+		}
+	}
+}
+
+// the peer has a gossip queue whose ticker goroutine is running
+func (s *vSim) tickerLive(n *vNode, peer transport.Peer) bool {
+	e := gossip.VerifEntry(n.p.gManager, peer)
+	return e != "" && n.ticker[e]
+}
+
 func (s *vSim) exec(op *vOp) {
 	if s.faults > 0 {
 		wd := time.AfterFunc(vHangTimeout, func() { s.reportHang(op) })
@@ -1345,13 +1375,13 @@ func (s *vSim) exec(op *vOp) {
 	case "tick":
 		n := s.nodes[op.N]
 		c := n.conns[op.Peer]
-		if c == nil || !gossip.VerifTick(n.p.gManager, c.peer) {
+		if c == nil || !s.tickerLive(n, c.peer) || !gossip.VerifTick(n.p.gManager, c.peer) {
 			line = "no-queue"
 		} else {
 			line = s.sentLine() + " " + n.stLine()
 		}
 		if c != nil {
-			if q, _, _, _, ok := gossip.VerifQueue(n.p.gManager, c.peer); ok {
+			if q, _, _, _, ok := gossip.VerifQueue(n.p.gManager, c.peer); ok && s.tickerLive(n, c.peer) {
 				line += fmt.Sprintf(" q=%d", len(q))
 			}
 		}
@@ -1413,13 +1443,12 @@ func (s *vSim) exec(op *vOp) {
 			c.connected = true
 		case "disconnect":
 			c.connected = false
-			n.p.connectionStateCallback(c.peer, transport.StateDisconnected, n.p)
+			s.peerEvent(n, c.peer, transport.StateDisconnected)
 		case "connect":
 			c.connected = true
-			n.p.connectionStateCallback(c.peer, transport.StateConnected, n.p)
+			s.peerEvent(n, c.peer, transport.StateConnected)
 		}
-		_, _, _, _, hasQ := gossip.VerifQueue(n.p.gManager, c.peer)
-		line = fmt.Sprintf("conn connected=%v queue=%v", c.connected, hasQ)
+		line = fmt.Sprintf("conn connected=%v queue=%v", c.connected, s.tickerLive(n, c.peer))
 	case "restart":
 		line = s.restart(s.nodes[op.N])
 	case "observe":
@@ -1529,7 +1558,7 @@ func (s *vSim) startScenario(sc vScenario, dir string) {
 		c := &vConn{sim: s, owner: cc.At, peerID: cc.Peer, peer: peer, connected: true}
 		n.conns[cc.Peer] = c
 		n.list.conns = append(n.list.conns, c)
-		n.p.connectionStateCallback(peer, transport.StateConnected, n.p)
+		s.peerEvent(n, peer, transport.StateConnected)
 	}
 	var parts []string
 	for _, n := range s.nodes {
